@@ -561,6 +561,18 @@ def run(ctx, replay=None):
     coverage["samples"] = [{"what": docs[i][0], "yaml": texts[i], "impl": {k: outs[i][k] for k in ("stage", "err", "driver")}}
                            for i in (0, 12, 40)]
     coverage["version_note"] = version_note
+    # behaviours worth knowing that are inside the property as stated (nothing is hidden; see props/C20.v)
+    observations = []
+    for (d, _), o in zip(docs, outs):
+        if o["stage"] == "ok" and o["cfg"] and ": multi" not in d:
+            p = o["cfg"]["pfcp"]
+            if "'maxRetrans') := 2.5" in d:
+                observations.append("%s -> accepted, MaxRetrans = %d (yaml.v2 truncates a float given for an integer field)" % (d, p["maxretrans"]))
+            if "'retransTimeout') := -1s" in d or "'retransTimeout') := 1.5" in d or "'retransTimeout') := -5" in d:
+                observations.append("%s -> accepted, RetransTimeout = %d ns (`required` only demands non-zero)" % (d, p["rt"]))
+            if "'mtu') := 1400.9" in d:
+                observations.append("%s -> accepted (mtu truncated)" % d)
+    coverage["observations"] = observations[:12]
     coverage["model_impl_mismatches"] = len(res["mism"]) + len(res["dmism"]) + len(res["vmism"])
     coverage["monitor_failures"] = len(res["monf"]) + len(res["vmonf"]) + len(panics)
     nviol = 0
